@@ -219,7 +219,13 @@ class Exec:
                     return self.module_global(self.repo.module(rp), ent[2])
                 return self.lib.namespace(ent[1]).get(ent[2])
             if ent[0] == "assign":
-                return self.eval_in_module(module, ent[1])
+                # a module-level assignment is evaluated once per (fresh) interpreter state, as at import: a mutable module global (a table, a threading.local) keeps
+                # its identity and whatever the analysed code stores in it for the rest of the path
+                cache = self.__dict__.setdefault("module_cache", {})
+                key = (module.relpath, name)
+                if key not in cache:
+                    cache[key] = self.eval_in_module(module, ent[1])
+                return cache[key]
         b = self.lib.builtin(name)
         if b is not None:
             return b
@@ -488,7 +494,13 @@ class Exec:
         self.block(n.finalbody)
 
     def s_Import(self, n):
-        raise Unsupported("import inside function")
+        # function-level `import a.b as c` (used in rex to avoid circular imports): bound like the module-level form
+        for al in n.names:
+            rp = self.repo.dotted_to_relpath(al.name)
+            mod = self.lib.repo_module(self, rp) if rp else self.lib.namespace(al.name)
+            if al.asname is None and "." in al.name:
+                raise Unsupported("import a.b without an alias inside a function")
+            self.frame.env[al.asname or al.name] = mod
 
     def s_ImportFrom(self, n):
         raise Unsupported("import inside function")
@@ -1216,6 +1228,8 @@ class Exec:
             return self.construct(f, args, kwargs, node)
         if callable(f):
             return f(self, *args, **kwargs)
+        if hasattr(f, "pyvc_call"):
+            return f.pyvc_call(self, *args, **kwargs)
         raise Unsupported(f"call of {f!r}")
 
     def construct(self, cref, args, kwargs, node=None):
